@@ -61,6 +61,30 @@ impl<TC: ModelCfg> Server<TC> {
         let nl = node_label::<TC>(label, true, version);
         TC::get_commitment_nonce(&ck, &nl, version, &AkdValue(value.to_vec())).to_vec()
     }
+    /// forged absences of `q` anchored at real interior nodes that are NOT on q's path
+    pub async fn forged_absences_off_path(&self, q: NodeLabel) -> Vec<NonMembershipProof> {
+        let qb = nl_bits(&q);
+        let empty = AzksElement { label: TC::empty_label(), value: TC::empty_node_hash() };
+        let mut out = vec![];
+        for (alabel, l, r, on_path) in super::c05::all_anchors(&self.tree, &qb) {
+            if on_path {
+                continue;
+            }
+            let an = bits_nl(&alabel);
+            let mp = self.member(an).await;
+            if mp.label != an {
+                continue;
+            }
+            out.push(NonMembershipProof {
+                label: q,
+                longest_prefix: an,
+                longest_prefix_children: [l.map(elem).unwrap_or(empty), r.map(elem).unwrap_or(empty)],
+                longest_prefix_membership_proof: mp,
+            });
+        }
+        out
+    }
+
     /// every forged absence of `q`: each real ancestor as claimed longest prefix with its real children
     pub async fn forged_absences(&self, q: NodeLabel) -> Vec<(usize, NonMembershipProof)> {
         let qb = nl_bits(&q);
@@ -184,6 +208,11 @@ impl<'r, TC: ModelCfg> HistVisitor<TC> for V6<'r> {
                     for (d, f) in srv.forged_absences(stale_v).await {
                         fresh_opts.push((format!("anchor_depth_{d}"), f));
                     }
+                    if v < n {
+                        for (i, f) in srv.forged_absences_off_path(stale_v).await.into_iter().enumerate() {
+                            fresh_opts.push((format!("off_path_anchor_{i}"), f));
+                        }
+                    }
                     for (fname, f) in fresh_opts {
                         let cand = srv.lookup_claim(label, v, &val, ep, f).await;
                         let what = if v < n { "superseded_version" } else if v == n { "latest_version" } else { "future_version" };
@@ -229,6 +258,12 @@ impl<'r, TC: ModelCfg> HistVisitor<TC> for V6<'r> {
                             ("value", LookupProof { value: other.value.clone(), ..mine.clone() }),
                             ("value_nonce", LookupProof { value: other.value.clone(), commitment_nonce: other.commitment_nonce.clone(), ..mine.clone() }),
                             ("version", LookupProof { version: other.version + 1, ..mine.clone() }),
+                            ("other_leaf_value_nonce_epoch_with_own_vrf", LookupProof {
+                                existence_proof: other.existence_proof.clone(), value: other.value.clone(), epoch: other.epoch,
+                                commitment_nonce: other.commitment_nonce.clone(), ..mine.clone() }),
+                            ("other_leaf_all_proofs_with_own_vrfs", LookupProof {
+                                existence_proof: other.existence_proof.clone(), marker_proof: other.marker_proof.clone(), freshness_proof: other.freshness_proof.clone(),
+                                value: other.value.clone(), epoch: other.epoch, version: other.version, commitment_nonce: other.commitment_nonce.clone(), ..mine.clone() }),
                             ("whole_proof", other.clone()),
                         ];
                         for (name, c) in swaps {
